@@ -1022,9 +1022,9 @@ def sys_fixed_faults(tier):
     handlers are running and the client keeps calling: the channel behind Channel::execute / spawn_incoming stops using the transport,
     is dropped, and its handlers are aborted"""
     out = []
-    # (not over the in-memory transport: there a channel that keeps using a failed transport never returns to the runtime, and the
-    # run ends as a harness timeout - a tool error - instead of a verdict)
-    for tr in ("json", "bincode"):
+    # (over the in-memory transport a channel that keeps using a failed transport never returns to the runtime: the harness's
+    # watchdog ends such a run after `hang_s` seconds with a SysHang event, which Trace_Sys judges)
+    for tr in ("json", "bincode", "mem"):
         for op in ("next", "ready", "flush"):
             for n, limit in ((0, -1), (1, 2)):
                 cfg = {"n": n, "limit": limit, "maxInFlight": 16, "buf": 16, "respBuf": 4, "transport": tr}
@@ -1065,7 +1065,7 @@ for _p in ("C09", "C14"):
     # System.tla with Faults = TRUE: the server's transport of a connection may fail at any moment (S_SrvFault); ObsSys rules on every state
     PROPS[_p]["models"].append(sys_model("system-faults", tiers=("quick", "thorough") if _p == "C09" else ("thorough",), Faults=True))
     PROPS[_p]["assumptions"] = PROPS[_p]["assumptions"] + [
-        "sys-faults: one injected failure of the server's transport (read / readiness / flush, over the JSON and bincode "
+        "sys-faults: one injected failure of the server's transport (read / readiness / flush, over the JSON, bincode and in-memory "
         "transports) under spawn_incoming + Channel::execute on a tokio runtime; judged by ObsSys.tla (bad09 / bad14)"]
 
 # ------------------------------------------------------------------ manifest texts
@@ -1181,7 +1181,7 @@ MANIFEST_TEXT["C16"] = dict(MANIFEST_TEXT["C16"], text=MANIFEST_TEXT["C16"]["tex
                             "clients called against a peer that answers with a well-formed response of the other rpc's type (Trace_Glue.tla: no panic).")
 MANIFEST_TEXT["C17"] = dict(MANIFEST_TEXT["C17"], text=MANIFEST_TEXT["C17"]["text"] + " The shape family includes #[cfg]-gated rpcs (present or compiled out).")
 _SYSF = (" Additionally the whole stack (spawn_incoming + Channel::execute + spawned clients on a tokio runtime) is executed with one "
-         "injected failure of the server's transport (read / readiness / flush; JSON and bincode) and judged by Trace_Sys.tla (%s): the "
+         "injected failure of the server's transport (read / readiness / flush; JSON, bincode and in-memory) and judged by Trace_Sys.tla (%s): the "
          "failed transport is never used again, the channel is dropped and its handlers are aborted; System.tla with its fault action "
          "(S_SrvFault) is model-checked against the same ObsSys rules.")
 MANIFEST_TEXT["C09"] = dict(MANIFEST_TEXT["C09"], text=MANIFEST_TEXT["C09"]["text"] + _SYSF % "Inv_C09sys")
